@@ -1,7 +1,7 @@
 (* Correspondence entry point for C04.
    case = VTup [VInt max_retries; VInt mode; VList jobs]
    job  = VTup [VInt action; VInt style; VInt pre; VInt post; VList parts]   (style: lazy/eager task function,
-                                                                              irrelevant to the model)
+                                                                              decisive for the lazy actions only)
    part = VTup [VList data; VList plan; VList nest]
    plan entry = VNone | VTup [VInt exception_class; VInt position];  nest entry = VTup [VInt kind; VInt caught]
    result = VList of VTup [res; VList logs] per job (see py/c04.py). *)
@@ -44,8 +44,8 @@ Fixpoint dec_all {A} (f : val -> option A) (l : list val) : option (list A) :=
 
 Definition dec_job (v : val) : option job :=
   match v with
-  | VTup [VInt a; VInt _; VInt pre; VInt post; VList ps] =>
-      option_map (mkJob a pre post) (dec_all dec_part ps)
+  | VTup [VInt a; VInt st; VInt pre; VInt post; VList ps] =>
+      option_map (mkJob a (negb (st =? 0)) pre post) (dec_all dec_part ps)
   | _ => None
   end.
 
@@ -70,8 +70,8 @@ Definition enc_outcome (mode : Z) (jidx : Z) (j : job) (o : outcome) : val :=
   | JOk v => VTup [VTup [VInt 0; v]; VList (enc_logs None 0 (o_logs o))]
   | JRefused => VTup [VTup [VInt 1; VInt E_LOCKED; VTup []]; VList (enc_logs None 0 (o_logs o))]
   | JErr e i a =>
-      VTup [VTup [VInt 1; VInt e; if e =? E_LOCKED then VTup [] else VTup [VInt jidx; VInt i; VInt a]];
-            VList (enc_logs (if mode =? 2 then Some i else None) 0 (o_logs o))]
+      VTup [VTup [VInt 1; VInt e; if (e =? E_LOCKED) || (e =? E_STOP) then VTup [] else VTup [VInt jidx; VInt i; VInt a]];
+            VList (enc_logs (if (mode =? 2) && negb (is_lazy (j_action j)) then Some i else None) 0 (o_logs o))]
   end.
 
 Fixpoint enc_all (mode : Z) (jidx : Z) (js : list job) (os : list outcome) : list val :=
